@@ -186,6 +186,9 @@ LAYOUTS = [
     # a bracketed list broken one name per line whose LATER alias equals the module name
     'from {a} import (\n    {b},\n    {c},\n    {a},\n)', 'from {a} import (\n    {b} as {c},\n    {d},\n    {a} as {b},\n)\n{a}',
     'from {a}.{b} import (\n    {c},\n    {d},\n    {b},\n    {a},\n)',
+    # a decorator expression that contains the definition's own name as a word
+    '@{b}({a} = None)\ndef {a}(): pass', '@{b}(lambda {a}: {a})\nasync def {a}({c}): pass', '@{b}({a}=1)\n@{c}\nclass {a}: pass',
+    '@{b}.{a}\n@{a}\ndef {a}(): pass', 'def {b}(x): return x\n@{b}( {a} )\ndef {a}(): pass',
     # names at column 0 of a continuation line
     'import {a}, \\\n{b}', 'from {a} import (\n{b},\n{c})', 'def \\\n{a}(): pass', 'class \\\n{a}: pass',
 ]
